@@ -249,6 +249,17 @@ Proof.
   unfold J in *. congruence.
 Qed.
 
+(* the overlap each job starts from is a function of the job sizes, hence of the input calls, too *)
+Corollary mt_prefixes_two_schedules : forall t p0 ptarget ops envs1 envs2 s1 s2,
+  0 < t -> Forall (fun o => 0 <= fst o) ops ->
+  run_ops t mt_init ops envs1 = Some s1 -> run_ops t mt_init ops envs2 = Some s2 ->
+  filled s1 = 0 -> filled s2 = 0 ->
+  job_prefixes p0 ptarget (nonempty_sizes (jobs s1)) = job_prefixes p0 ptarget (nonempty_sizes (jobs s2)).
+Proof.
+  intros t p0 ptarget ops envs1 envs2 s1 s2 Ht HN H1 H2 HF1 HF2.
+  rewrite (mt_two_schedules t ops envs1 envs2 s1 s2 Ht HN H1 H2 HF1 HF2). reflexivity.
+Qed.
+
 (* The LAST flag is NOT schedule independent (finding "mt-jobtable-full-last-job"): a full jobs table at the moment
    the buffer becomes exactly full, followed by an end directive without input, turns the pending section into the
    last job; otherwise it is an ordinary job and the end directive adds an empty last job. *)
